@@ -81,6 +81,37 @@ def pretty_oracle(messages):
     return full, partial
 
 
+def pretty_model_tie(messages, workdir):
+    """M15 tie: `pretty` of coq/model/Pretty.v, evaluated inside Coq by vm_compute, against the real PrettyPrintErrorMessage
+    (bin/harness pretty), byte for byte. -> (number compared, list of (message, real, model-differs marker)) or (None, error)"""
+    import subprocess
+    inp = "\n".join(json.dumps(m) for m in messages) + "\n"
+    rc, out, err = common.harness(["pretty"], inp=inp)
+    if rc != 0:
+        return None, "harness pretty failed: " + err[-500:]
+    reals = [json.loads(line) for line in out.splitlines()]
+    if len(reals) != len(messages):
+        return None, "harness pretty: %d outputs for %d messages" % (len(reals), len(messages))
+    def blist(t):
+        return "[" + "; ".join(str(b) for b in t.encode("utf-8", "surrogateescape")) + "]"
+    v = ["From Coq Require Import List NArith Bool.", "From NM Require Import Pretty.", "Import ListNotations.", "Open Scope N_scope.",
+         "Fixpoint leq (a b : list N) : bool := match a, b with [] , [] => true | x :: a', y :: b' => (x =? y) && leq a' b' | _, _ => false end.",
+         "Definition cases : list (nat * (list N * list N)) := ["]
+    v.append(";\n".join("  (%d%%nat, (%s, %s))" % (i, blist(m), blist(r)) for i, (m, r) in enumerate(zip(messages, reals))))
+    v += ["].", "Definition bad := Eval vm_compute in map fst (filter (fun c => negb (leq (pretty (fst (snd c))) (snd (snd c)))) cases).", "Print bad."]
+    os.makedirs(workdir, exist_ok=True)
+    open(os.path.join(workdir, "pretty_cases.v"), "w").write("\n".join(v) + "\n")
+    p = subprocess.run(["coqc", "-Q", os.path.join(common.COQ, "model"), "NM", "pretty_cases.v"], cwd=workdir, capture_output=True, text=True, timeout=900)
+    if p.returncode != 0:
+        return None, (p.stderr + p.stdout)[-500:]
+    txt = " ".join(p.stdout.split())
+    if "bad = []" in txt:
+        return len(messages), []
+    body = txt[txt.index("= [") + 3:txt.rindex("]")]
+    idx = [int(x.replace("%nat", "").strip()) for x in body.split(";") if x.strip()]
+    return len(messages), [(messages[i], reals[i]) for i in idx]
+
+
 def synthetic_messages(rng, n):
     words = ["Potential nil panic detected.", "Observed nil flow from source to dereference point:", "\t- a/b.go:3:4:", "literal `nil`",
              "returned from `f()`", "(found nilable)", "(must be nonnil)", "accessed field `x`", "\"a/b.go:10:2\"", "\"-\"", "`", "\"", "\n", "\t",
